@@ -60,28 +60,28 @@ Section C08Text.
   Notation nav1f := (nav1f parse_float).
   Notation nav_allf := (nav_allf parse_float).
 
-  Lemma nav1f_vrel x l l' v : vrel (nav1f x (l, v)) (nav1f x (l', v)).
+  Lemma nav1f_vrel root x l l' v : vrel (nav1f root x (l, v)) (nav1f root x (l', v)).
   Proof. destruct x as [y|i|i o lit|i|d]; cbn [FiltChainAddr.nav1f]; [apply nav1r_vrel|apply navp_vrel|apply navp_vrel|apply navp_vrel|apply navp_vrel]. Qed.
 
-  Lemma nav_allf_vrel q : forall lv lv', snd lv = snd lv' -> vrel (nav_allf q lv) (nav_allf q lv').
+  Lemma nav_allf_vrel root q : forall lv lv', snd lv = snd lv' -> vrel (nav_allf root q lv) (nav_allf root q lv').
   Proof.
     induction q as [|x r IH]; intros [l v] [l' v'] E; cbn [snd] in E; subst v'; cbn [FiltChainAddr.nav_allf].
     - apply vrel_one.
     - apply vrel_flat; [apply nav1f_vrel|]. intros a b Hab. apply IH. exact Hab.
   Qed.
 
-  Lemma nav_allf_app p q lv : nav_allf (p ++ q) lv = flat_map (nav_allf q) (nav_allf p lv).
+  Lemma nav_allf_app root p q lv : nav_allf root (p ++ q) lv = flat_map (nav_allf root q) (nav_allf root p lv).
   Proof.
     revert lv. induction p as [|x r IH]; intros lv; cbn [app FiltChainAddr.nav_allf].
     - cbn [flat_map]. rewrite app_nil_r. reflexivity.
     - rewrite flat_map_flat_map. apply flat_map_ext'. intros a. apply IH.
   Qed.
 
-  Lemma nav_allf_small q : forall lv, small (snd lv) -> Forall (fun a => small (snd a)) (nav_allf q lv).
+  Lemma nav_allf_small root q : forall lv, small (snd lv) -> Forall (fun a => small (snd a)) (nav_allf root q lv).
   Proof.
     induction q as [|x r IH]; intros [l v] Hsm; cbn [FiltChainAddr.nav_allf]; [constructor; [exact Hsm|constructor]|].
     apply Forall_forall. intros a Hin. apply in_flat_map in Hin. destruct Hin as [b [Hb Ha]].
-    pose proof (nav1f_small parse_float x l v Hsm) as Hn. rewrite Forall_forall in Hn.
+    pose proof (nav1f_small parse_float root x l v Hsm) as Hn. rewrite Forall_forall in Hn.
     pose proof (IH b (Hn b Hb)) as Hr. rewrite Forall_forall in Hr. exact (Hr a Ha).
   Qed.
 
@@ -90,13 +90,13 @@ Section C08Text.
 
   Lemma values_of_path x r doc st t : forallb fstep_ok (x :: r) = true -> forallb (fstep_okp parse_float) (x :: r) = true -> small doc -> ok st ->
     parse (fchain_path (x :: r)) = ParseOk t ->
-    vals_of (fst (eval_run t doc st)) = map snd (nav_allf (x :: r) ([], doc)) /\
-    ((exists e, fst (eval_run t doc st) = OErr e) <-> nav_allf (x :: r) ([], doc) = []).
+    vals_of (fst (eval_run t doc st)) = map snd (nav_allf doc (x :: r) ([], doc)) /\
+    ((exists e, fst (eval_run t doc st) = OErr e) <-> nav_allf doc (x :: r) ([], doc) = []).
   Proof.
     intros Hs Hp Hd Hok Ht.
     destruct (fchain_retrieval cfg parse_float regex_ok ffun afun regex_match ffun_small afun_small x r doc st Hs Hp Hd Hok) as (t' & Ht' & H).
     rewrite Ht in Ht'. inversion Ht'; subst t'.
-    destruct (nav_allf (x :: r) ([], doc)) as [|a l].
+    destruct (nav_allf doc (x :: r) ([], doc)) as [|a l].
     - destruct H as [e He]. rewrite He. split; [reflexivity|]. split; [reflexivity|]. intros _. exists e. reflexivity.
     - rewrite H. split.
       + cbn [vals_of]. rewrite map_map. apply map_ext. intros [l0 z]. unfold loc_result. rewrite plain_mode. reflexivity.
@@ -104,15 +104,16 @@ Section C08Text.
   Qed.
 
   Theorem concatenation_from_text p0 p q0 q doc st :
-    forallb fstep_ok ((p0 :: p) ++ q0 :: q) = true -> forallb (fstep_okp parse_float) ((p0 :: p) ++ q0 :: q) = true -> small doc -> ok st ->
+    forallb fstep_ok ((p0 :: p) ++ q0 :: q) = true -> forallb (fstep_okp parse_float) ((p0 :: p) ++ q0 :: q) = true ->
+    forallb (fstep_rootfree) (q0 :: q) = true -> small doc -> ok st ->
     exists tpq tq,
       parse (fchain_path ((p0 :: p) ++ q0 :: q)) = ParseOk tpq /\ parse (fchain_path (q0 :: q)) = ParseOk tq /\
       vals_of (fst (eval_run tpq doc st)) =
-        flat_map (fun lv => vals_of (fst (eval_run tq (snd lv) st))) (nav_allf (p0 :: p) ([], doc)) /\
+        flat_map (fun lv => vals_of (fst (eval_run tq (snd lv) st))) (nav_allf doc (p0 :: p) ([], doc)) /\
       ((exists e, fst (eval_run tpq doc st) = OErr e) <->
-       flat_map (fun lv => vals_of (fst (eval_run tq (snd lv) st))) (nav_allf (p0 :: p) ([], doc)) = []).
+       flat_map (fun lv => vals_of (fst (eval_run tq (snd lv) st))) (nav_allf doc (p0 :: p) ([], doc)) = []).
   Proof.
-    intros Hs Hp Hd Hok.
+    intros Hs Hp Hrf Hd Hok.
     assert (Hsq : forallb fstep_ok (q0 :: q) = true) by (rewrite forallb_app in Hs; apply andb_true_iff in Hs; exact (proj2 Hs)).
     assert (Hpq : forallb (fstep_okp parse_float) (q0 :: q) = true) by (rewrite forallb_app in Hp; apply andb_true_iff in Hp; exact (proj2 Hp)).
     exists (fchain_node cfg parse_float ((p0 :: p) ++ q0 :: q)), (fchain_node cfg parse_float (q0 :: q)).
@@ -120,16 +121,16 @@ Section C08Text.
     pose proof (parse_fchain_path cfg parse_float regex_ok q0 q Hsq Hpq) as T2.
     split; [exact T1|]. split; [exact T2|].
     destruct (values_of_path p0 (p ++ q0 :: q) doc st _ Hs Hp Hd Hok T1) as [V1 F1].
-    assert (Hinner : forall lv, In lv (nav_allf (p0 :: p) ([], doc)) ->
-              vals_of (fst (eval_run (fchain_node cfg parse_float (q0 :: q)) (snd lv) st)) = map snd (nav_allf (q0 :: q) lv)).
-    { intros [l v] Hin. pose proof (nav_allf_small (p0 :: p) ([], doc) Hd) as Hsm. rewrite Forall_forall in Hsm.
-      destruct (values_of_path q0 q v st _ Hsq Hpq (Hsm _ Hin) Hok T2) as [V2 _]. cbn [snd]. rewrite V2.
+    assert (Hinner : forall lv, In lv (nav_allf doc (p0 :: p) ([], doc)) ->
+              vals_of (fst (eval_run (fchain_node cfg parse_float (q0 :: q)) (snd lv) st)) = map snd (nav_allf doc (q0 :: q) lv)).
+    { intros [l v] Hin. pose proof (nav_allf_small doc (p0 :: p) ([], doc) Hd) as Hsm. rewrite Forall_forall in Hsm.
+      destruct (values_of_path q0 q v st _ Hsq Hpq (Hsm _ Hin) Hok T2) as [V2 _]. cbn [snd]. rewrite V2, (nav_allf_rootfree parse_float v doc (q0 :: q) Hrf).
       apply vrel_values. apply nav_allf_vrel. reflexivity. }
-    assert (E : flat_map (fun lv => vals_of (fst (eval_run (fchain_node cfg parse_float (q0 :: q)) (snd lv) st))) (nav_allf (p0 :: p) ([], doc)) =
-                map snd (nav_allf ((p0 :: p) ++ q0 :: q) ([], doc))).
+    assert (E : flat_map (fun lv => vals_of (fst (eval_run (fchain_node cfg parse_float (q0 :: q)) (snd lv) st))) (nav_allf doc (p0 :: p) ([], doc)) =
+                map snd (nav_allf doc ((p0 :: p) ++ q0 :: q) ([], doc))).
     { rewrite nav_allf_app, map_flat_map'. apply flat_map_ext_in'. exact Hinner. }
     rewrite E. split; [exact V1|].
     change ((p0 :: p) ++ q0 :: q) with (p0 :: (p ++ q0 :: q)) in *. rewrite F1.
-    destruct (nav_allf (p0 :: p ++ q0 :: q) ([], doc)); cbn [map]; split; intros H; try reflexivity; discriminate H.
+    destruct (nav_allf doc (p0 :: p ++ q0 :: q) ([], doc)); cbn [map]; split; intros H; try reflexivity; discriminate H.
   Qed.
 End C08Text.
